@@ -307,6 +307,9 @@ func (r *Transport) Close() error {
 //
 // It implements the Closer interface.
 func (r *Transport) CloseWithStatus(status transport.CloseStatus) error {
+	// cancel before taking r.mu: a redial in progress holds r.mu for its whole budget and only gives up when it
+	// sees the transport closed; pending Reads and Writes fail at once
+	r.cancel()
 	r.mu.Lock()
 	defer r.mu.Unlock()
 	var err error
@@ -395,7 +398,7 @@ func (r *Transport) reconnect(old transport.Transport) error {
 		if err == nil {
 			if _, err := newTransport.Read(); err != nil {
 				rerr = err
-				time.Sleep(r.reconnectInterval)
+				r.sleep(r.reconnectInterval)
 				continue
 			}
 			r.logger.Infof(r.ctx, "Successfully reconnected on attempt %d", i+1)
@@ -403,9 +406,19 @@ func (r *Transport) reconnect(old transport.Transport) error {
 			return nil
 		}
 		rerr = err
-		time.Sleep(r.reconnectInterval)
+		r.sleep(r.reconnectInterval)
 	}
 	return fmt.Errorf("reconnect: %w", rerr)
+}
+
+// sleep waits for d or until the transport is closed.
+func (r *Transport) sleep(d time.Duration) {
+	t := time.NewTimer(d)
+	defer t.Stop()
+	select {
+	case <-t.C:
+	case <-r.ctx.Done():
+	}
 }
 
 func (r *Transport) closed() bool {
